@@ -520,6 +520,20 @@ func r8fresh(c *core.Ctx) {
 				if strings.HasPrefix(name, "bytes.") || strings.HasPrefix(name, "encoding/binary.") || strings.HasPrefix(name, pNas+".") || strings.HasPrefix(name, pNasM+".") {
 					continue
 				}
+				if ci.Common().StaticCallee() == nil && !ci.Common().IsInvoke() {
+					// a call through a local function value: fine when everything it can hold is an encoder
+					ts := funcValueTargets(ci.Common().Value, 0)
+					okT := len(ts) > 0
+					for _, t := range ts {
+						if !strings.HasPrefix(t, pNas+".") && !strings.HasPrefix(t, pNasM+".") {
+							okT = false
+						}
+					}
+					if okT {
+						continue
+					}
+					name = "a function value (" + strings.Join(ts, ", ") + ")"
+				}
 				bad = "handed to " + shortName(name)
 			}
 			c.Check(bad == "", R, key, r.pos, "fresh buffer, used only by the encoders", "the buffer whose bytes are returned is %s: it outlives the call and its storage is reused, so an earlier result changes when a later message is encoded", bad)
@@ -571,4 +585,36 @@ func ieiHelperOK(c *core.Ctx, name string) bool {
 		}
 	}
 	return true
+}
+
+// funcValueTargets: the functions a local function value can be (closures, bound method values,
+// function constants, merged by phis); nil when something else can flow in.
+func funcValueTargets(v ssa.Value, depth int) []string {
+	if depth > 4 {
+		return nil
+	}
+	switch x := v.(type) {
+	case *ssa.MakeClosure:
+		if f, ok := x.Fn.(*ssa.Function); ok {
+			return []string{strings.TrimSuffix(core.FuncName(f), "$bound")}
+		}
+	case *ssa.Function:
+		return []string{core.FuncName(x)}
+	case *ssa.Phi:
+		var out []string
+		for _, e := range x.Edges {
+			if k, isK := e.(*ssa.Const); isK && k.Value == nil {
+				continue
+			}
+			ts := funcValueTargets(e, depth+1)
+			if ts == nil {
+				return nil
+			}
+			out = append(out, ts...)
+		}
+		return out
+	case *ssa.ChangeType:
+		return funcValueTargets(x.X, depth+1)
+	}
+	return nil
 }
